@@ -27,6 +27,56 @@ def rename_expr(e, s):
     return e
 
 
+def unshadow_expr(e, scope, counter):
+    """alpha-rename every let / tuple-let / lambda binder that rebinds a name already in scope to a
+    name used nowhere else; the meaning is unchanged under lexical scoping. scope: name -> current name"""
+    if isinstance(e, list):
+        return [unshadow_expr(x, scope, counter) for x in e]
+    if not isinstance(e, dict):
+        return e
+    k = e.get("k")
+
+    def fresh(x):
+        counter[0] += 1
+        return f"{x}_s{counter[0]}"
+    if k == "var":
+        return dict(e, x=scope.get(e["x"], e["x"]))
+    if k == "let":
+        a = unshadow_expr(e["a"], scope, counter)
+        nx = fresh(e["x"]) if e["x"] in scope else e["x"]
+        inner = dict(scope)
+        inner[e["x"]] = nx
+        return dict(e, x=nx, a=a, b=unshadow_expr(e["b"], inner, counter))
+    if k == "lett":
+        a = unshadow_expr(e["a"], scope, counter)
+        inner = dict(scope)
+        nxs = []
+        for x in e["xs"]:
+            nx = fresh(x) if x in scope else x
+            inner[x] = nx
+            nxs.append(nx)
+        return dict(e, xs=nxs, a=a, b=unshadow_expr(e["b"], inner, counter))
+    if k == "asg":
+        return dict(e, x=scope.get(e["x"], e["x"]), a=unshadow_expr(e["a"], scope, counter),
+                    b=unshadow_expr(e["b"], scope, counter))
+    if k == "lam":
+        inner = dict(scope)
+        nps = []
+        for x in e["ps"]:
+            nx = fresh(x) if x in scope else x
+            inner[x] = nx
+            nps.append(nx)
+        return dict(e, ps=nps, b=unshadow_expr(e["b"], inner, counter))
+    return {kk: unshadow_expr(v, scope, counter) for kk, v in e.items()}
+
+
+def unshadow_prog(prog):
+    out = copy.deepcopy(prog)
+    counter = [0]
+    out["fns"] = {f: dict(d, b=unshadow_expr(d["b"], {p: p for p in d["ps"]}, counter)) for f, d in prog["fns"].items()}
+    return out, counter[0]
+
+
 def user_names(prog):
     names = []
 
